@@ -29,10 +29,13 @@ META = {
                  "regenerated from the writers' format strings (ast) and the parsers' column tables (ast / reflection) on every "
                  "run; vm_compute correspondence with the real writers and parsers",
     "level_text": (
-        "Theorems in Coq 8.16 (all closed under the global context): the decidable criterion `compatible` / `span_map` is evaluated "
+        "Theorems in Coq 8.16 (all closed under the global context): layout_compatible_sound - for EVERY layout, column table and "
+        "record whose values fit, if the decidable criterion `compatible` holds the fixed-column parser returns column by column the "
+        "stripped formatted value of the field `span_map` names (any number of fields, open-ended last column, tail field), and "
+        "float() of a numeric column is the correctly rounded printed decimal (column_reads_printed_value); the criterion is evaluated "
         "by the kernel on the layouts regenerated from the current source for every writer/parser pair (bernese_crd, bernese_clu, "
-        "bernese_sta <-> bernese_sta_v52, sinex_tms header / FILE/REFERENCE / REF_COORDINATE / COLUMNS) and yields the stated "
-        "column->field map; the parser registered as bernese_sta (v5.4) provably cannot read the writer's rows; the field windows of "
+        "bernese_sta <-> bernese_sta_v52, sinex_tms header / FILE/REFERENCE / REF_COORDINATE / COLUMNS) and each obligation is stated as "
+        "the round trip for all fitting records; the parser registered as bernese_sta (v5.4) provably cannot read the writer's rows; the field windows of "
         "the Bernese STA rows lie inside the writer's own column ruler; rows read by splitting on blanks re-tokenise to the written "
         "values iff every inner gap is non-empty (tokens_pieces, token_row_sound, tms_tokens - all rows, any number of fields); "
         "which magnitudes fit %w.df with / without a separating blank (fits_characterisation, narrower_characterisation, all w d m) "
@@ -41,12 +44,11 @@ META = {
         "(fix_readback).  The model is tied to the code on every run: layouts/tables regenerated, and files written by the real "
         "writers are compared line by line with the model inside Coq and re-read by the real parsers."),
     "level_note": (
-        "NOT proved: the generic soundness of `compatible` (layout_compatible_sound: compatible => every fitting record parses back) - "
-        "it is checked per written line inside Coq instead (verdict 4).  Trusted: Coq kernel + vm_compute; the hand-written model of "
+        "Trusted: Coq kernel + vm_compute; the hand-written model of "
         "Python's format mini-language (validated per written line), of np.genfromtxt fixed-width splitting / ChainParser slicing / "
         "str.split (validated per parsed line); the translator harness/drivers/c17_layouts.py (fail-closed); the identifier lengths "
         "of the formats written in the driver's ROWS table; which lines a writer emits for an input (row selection, sorting) is "
-        "re-implemented in the driver and validated by comparing complete files.  gamit_*, gipsyx_site_info are not covered."),
+        "re-implemented in the driver and validated by comparing complete files.  gamit_apr_eq, gamit_station_info, gipsyx_site_info and the SOLUTION blocks of sinex_tms have no parser in the library: bytes vs model, columns and input digests only."),
 }
 
 THEOREMS = [
@@ -1583,23 +1585,28 @@ def run(ctx):
         return ctx.finish(level="proof", rule="translation failed")
     ok = ctx.prove(THEOREMS)
     acc = Acc()
-    n_site = 10 if ctx.quick() else 60
-    n_tms = 36 if ctx.quick() else 300
+    n_site = 8 if ctx.quick() else 60
+    n_tms = 30 if ctx.quick() else 300
     run_site_writers(ctx, t, acc, n_site)
     ctx.log(f"site-information writers done: {sum(len(v) for v in acc.cases.values())} lines")
     run_tms(ctx, t, acc, n_tms)
     ctx.log(f"sinex_tms done: {sum(len(v) for v in acc.cases.values())} lines, {len(acc.files)} files")
-    run_csv(ctx, t, acc, 12 if ctx.quick() else 80)
+    run_csv(ctx, t, acc, 10 if ctx.quick() else 80)
     ctx.log(f"csv_ done: {sum(len(v) for v in acc.cases.values())} lines, {len(acc.files)} files")
 
     verdicts = {}
+    # all shards of all check functions in ONE pool (the machine is shared: sequential pools wait for every straggler)
+    plan = []
     for fn, cases in acc.cases.items():
-        shards = emit.shard_terms(fn, cases, 200)
-        vs = ctx.coq_cases(shards, REQ, timeout=240)
-        for i, v in enumerate(vs):          # a shard lost to the machine (not to Coq) is evaluated once more, alone
-            if v is None:
-                vs[i] = ctx.coq_cases([shards[i]], REQ, timeout=600)[0]
-        ctx.log(f"{fn}: {len(cases)} cases evaluated in Coq")
+        for sh_ in emit.shard_terms(fn, cases, 150):
+            plan.append((fn, sh_))
+    vs_all = ctx.coq_cases([sh_ for _, sh_ in plan], REQ, timeout=300)
+    for i, v in enumerate(vs_all):          # a shard lost to the machine (not to Coq) is evaluated once more, alone
+        if v is None:
+            vs_all[i] = ctx.coq_cases([plan[i][1]], REQ, timeout=600)[0]
+    ctx.log(f"{len(plan)} shards / {sum(len(c_) for c_ in acc.cases.values())} cases evaluated in Coq")
+    for fn, cases in acc.cases.items():
+        vs = [v for (f_, _), v in zip(plan, vs_all) if f_ == fn]
         flat = emit.flatten_verdicts(vs, len(cases))
         if flat is None:
             ctx.violation({"broken": f"correspondence shards of {fn} did not evaluate in Coq", "errors": ctx.last_coq_errors[:2]},
